@@ -244,7 +244,7 @@ def scn_case(ctx):
 FAMILIES = {"case": scn_case}
 PLAN = {"quick": [("case", 64, 4)], "thorough": [("case", 64, 4)]}  # used by selftest/digests only
 BUDGET = {"quick": 400, "thorough": 3000}
-NCFG = {"quick": 16, "thorough": 320}
+NCFG = {"quick": 16, "thorough": 400}
 
 
 def _enumerate_cases(seed, c, K_hint=None):
@@ -328,8 +328,16 @@ def run_check(tier, seed, known):
 
     mod = sys.modules[__name__]
     ncfg = len({r["idx"] // 1000 for r in results})
-    META["extra"] = {"configurations": ncfg, "exhaustive": False,
-                     "boundary_cases_exhaustive_per_configuration": True}
+    META["extra"] = {
+        "configurations": ncfg, "exhaustive": False, "boundary_cases_exhaustive_per_configuration": True,
+        "seeds": {
+            "verif_seed": seed,
+            "derivation": "configuration c: sha256(VERIF_SEED|C17|config|c)[:8]; its seeded interior cases: sha256(VERIF_SEED|C17|interior|c)[:8]; "
+                          "boundary cases are enumerated, not drawn; run_index = 1000*c + case number",
+            "first_config_seed": derive_seed(seed, "C17", "config", 0),
+            "last_config_seed": derive_seed(seed, "C17", "config", max(0, n - 1)),
+        },
+    }
     return cli.finish("C17", tier, seed, mod, results, herrs, time.monotonic() - t0, known)
 
 
